@@ -144,10 +144,29 @@ impl AgeEncryptor {
 pub fn vf_age_encrypt_all(enc: AgeEncryptor, data: &Vec<u8>) -> (r: Result<Vec<u8>, IoError>)
     ensures r matches Ok(v) ==> age_encrypts(v@, enc.keys@, data@)
 { unimplemented!() }
-// what SlatepackEncMetadataBin::write produces (u32 length of the body, then the body) — A-meta-format: the reader decodes it back
+// what byte_ser::to_bytes(&SlatepackEncMetadataBin) produces / what byte_ser::from_bytes::<SlatepackEncMetadataBin> yields.
+// A-shim: the two serde shims run SlatepackEncMetadataBin::write / ::read, which are verified in unit slatepack_bin against
+// enc_meta / dec_meta (contracts/inc/spbin.toml). The former assumption A-meta-format ("the reader decodes what the writer
+// produced") is now the lemma below, proved from the codec's round-trip lemma.
 pub uninterp spec fn spec_enc_meta_bytes(m: SlatepackEncMetadata) -> Seq<u8>;
 #[verifier::external_body]
-pub proof fn axiom_enc_meta_format(m: SlatepackEncMetadata)
-    ensures spec_enc_meta_bytes(m).len() >= 4, 4 + spec_de32(spec_enc_meta_bytes(m).take(4)) == spec_enc_meta_bytes(m).len(),
-        spec_enc_meta_of(spec_enc_meta_bytes(m)) == Some(m)
+pub proof fn axiom_shim_runs_write(m: SlatepackEncMetadata)
+    ensures meta_wf(meta_view(m)) ==> spec_enc_meta_bytes(m) == enc_meta(meta_view(m))
 { }
+#[verifier::external_body]
+pub proof fn axiom_shim_runs_read(b: Seq<u8>)
+    ensures
+        dec_meta(b) matches Some((v, rest)) ==> (spec_enc_meta_of(b) matches Some(m) && meta_view(m) == v),
+        spec_enc_meta_of(b) matches Some(m) ==> (dec_meta(b) matches Some((v, rest)) && meta_view(m) == v),
+{ }
+pub proof fn lemma_enc_meta_format(m: SlatepackEncMetadata)
+    requires meta_wf(meta_view(m))
+    ensures spec_enc_meta_bytes(m).len() >= 4, 4 + spec_de32(spec_enc_meta_bytes(m).take(4)) == spec_enc_meta_bytes(m).len(),
+        spec_enc_meta_of(spec_enc_meta_bytes(m)) matches Some(m2) && meta_view(m2) == meta_view(m)
+{
+    axiom_shim_runs_write(m);
+    let b = enc_meta(meta_view(m));
+    lemma_meta_roundtrip(meta_view(m), Seq::<u8>::empty());
+    assert(b + Seq::<u8>::empty() =~= b);
+    axiom_shim_runs_read(b);
+}
